@@ -19,7 +19,7 @@ BUDGET_S = {'quick': 100, 'thorough': 1800}
 
 def plan(tier, seed):
     from . import c08_script
-    return [('hostile-legal', 1500 if tier == 'quick' else 50000), ('lease', 300 if tier == 'quick' else 10000)] \
+    return [('hostile-legal', 4000 if tier == 'quick' else 60000), ('lease', 1500 if tier == 'quick' else 20000)] \
         + c08_script.plan(tier, seed)
 
 
